@@ -14,7 +14,7 @@ ASSUME = c02.ASSUME[:4] + [
     "ASAP bound recomputed from observed predecessor dates; ALAP deadline = own/inherited end, else earliest successor start minus gap, else observed project end",
 ]
 
-PATTERNS = ["one20", "one90", "one600", "chain", "indep", "fork", "prio", "team", "gapchain", "nestends", "mid10", "mid25", "mid40", "mid50", "gaplen2h", "gaplen1d", "cgap", "mixgap", "mixgaplen", "mixonstart"]
+PATTERNS = ["one20", "one90", "one600", "chain", "indep", "fork", "prio", "team", "gapchain", "nestends", "mid10", "mid25", "mid40", "mid50", "gaplen2h", "gaplen1d", "cgap", "mixgap", "mixgaplen", "mixonstart", "twosucc-a", "twosucc-b"]
 
 
 def universe(tier):
@@ -82,6 +82,12 @@ def to_spec(it):
         # the dependency bound lies m minutes past the hour (a predecessor of m minutes on the other resource): inside a slot, and for
         # sub-hour resolutions not in the first slot of its clock hour; a lower-priority task on the same resource follows
         tasks = [{"id": "p", "effort": int(pat[3:]), "alloc": ["r2"]}, T("a", 90, deps=["p"]), T("low", 60, prio=300)]
+    elif pat.startswith("twosucc"):
+        # one task with TWO successors, only one of the edges carries a gap and the other successor is the binding one (backward: the
+        # deadline is the minimum over successors of start minus that successor's own gap); -a: the gapped successor is declared first
+        s1 = {"id": "s1", "effort": 60, "alloc": ["r2"], "deps": [{"ref": "t", "gap": "2h"}]}
+        s2 = {"id": "s2", "effort": 420, "alloc": ["r2"], "deps": ["t"]}
+        tasks = [T("t", 150)] + ([s1, s2] if pat.endswith("-a") else [s2, s1])
     elif pat.startswith("mix"):
         # an entry WITH options written before a plain entry of the same list, the plain one binding (its predecessor ends later)
         opt = {"mixgap": {"gap": "1h"}, "mixgaplen": {"gaplen": "1h"}, "mixonstart": {"onstart": True}}[pat]
